@@ -462,7 +462,7 @@ pub fn run_pool(check: &dyn Check, tier: Tier, seed: u64, plan: &Plan) -> RunOut
                                     json!({"case": case}),
                                 );
                             } else {
-                                r.inconclusive.push(format!("worker died: {}", sig));
+                                r.inconclusive.push(format!("worker died: {} (case {})", sig, case));
                             }
                         } else if let Some(o) = overrun {
                             if o.starts_with("cpu") && death_violation {
